@@ -188,7 +188,7 @@ pub fn run(tier: Tier, seed: u64) -> i32 {
     ctx.extra("systematic_cases", json!(cases.len()));
     enumerate(&ctx, &cases, test_case);
     if !ctx.stopped() {
-        prop_search(&ctx, "random", tier.pick(60_000, 1_500_000), gen_random, test_case);
+        prop_search(&ctx, "random", tier.pick(60_000, 6_000_000), gen_random, test_case);
     }
     ctx.finish()
 }
